@@ -303,7 +303,8 @@ def family_xz(ctx, j, quick, rnd, pool):
     """Stages 1-3 for the XZ writer (single stream): design check, TLC behaviours replayed, traces validated."""
     t0 = time.time()
     # ---- stage 1: the as-built design, all properties; in parallel the regressed designs (probes) and the export run
-    design_c = xz_consts(CheckIds="{0,1}" if quick else "{0,1,4,10}", HSizes="{12}" if quick else "{12,16}")
+    design_c = xz_consts(CheckIds="{0,1}" if quick else "{0,1,4,10}", HSizes="{12}" if quick else "{12,16}",
+                         CSizes="{5,6,7}" if quick else "{5,6,7,8}")
     f_design = pool.submit(xz_model, design_c, XZ_INV, 4)
     export_c = xz_consts(CheckIds="{0,1,4,10}", LimitOpts="{0,1,2,3}", HSizes="{12,16,20}" if not quick else "{12,16}", CSizes="{5}",
                          MaxUnits="4" if quick else "5", MaxWrite="4" if quick else "5", MaxBlocks="3" if quick else "4",
